@@ -18,7 +18,9 @@ pub mod c14;
 pub mod c15;
 pub mod c16;
 pub mod c17;
+pub mod c18;
 pub mod c19;
+pub mod c20;
 
 pub struct PropDef {
     pub id: &'static str,
@@ -46,6 +48,8 @@ pub fn all() -> Vec<PropDef> {
         PropDef { id: "C15", run: c15::run, replay: c15::replay },
         PropDef { id: "C16", run: c16::run, replay: c16::replay },
         PropDef { id: "C17", run: c17::run, replay: c17::replay },
+        PropDef { id: "C18", run: c18::run, replay: c18::replay },
         PropDef { id: "C19", run: c19::run, replay: c19::replay },
+        PropDef { id: "C20", run: c20::run, replay: c20::replay },
     ]
 }
